@@ -26,6 +26,7 @@ template<class S,class Tg> void tr_jacs(hx::Rec<S>& R){ COMMON
 }
 template<class S,class Tg> void tr_log(hx::Rec<S>& R){ COMMON
   G X=Tg::make(R,"a",0); Jac Jt,Jg;
+  assume_elem_rot_positive<Tg>(R,X); assume_not_half_turn<Tg>(R,X);
   T lt=X.log(Jt);
   R.force_generic(true); T lg=X.log(Jg); R.force_generic(false);
   apm(R,"log",lt.coeffs(),lg.coeffs(),"value");
